@@ -22,7 +22,7 @@ TECHNIQUE = ('Hypothesis-generated programs with reference-execution outputs: mu
              'single-want corruptions (must fail at that want); bounded exhaustive enumeration of want placements')
 RULE = ("programs of 1-8 statements (13 kinds: printing, value-bearing, None, assignments, loops, semicolon lines, "
         "printing+value, multi-line; new-style and classic prompt layouts) x placements of correct wants "
-        "(all / own / val / repl) x one corruption (replace, append, prepend, drop last line, stale prefix, '...' want demanding the tail twice, repr of an earlier statement's value). "
+        "(all / own / val / repl) x one corruption (replace, append, prepend, drop last line, stale prefix, '...' want demanding the tail twice, repr of an earlier statement's value, a lone quote character under a silent statement). "
         "Non-trivial: >= 2 wants, or a want matching output accumulated from >= 2 want-less statements, or a corruption "
         "at a want that is not the first. Distinct = distinct (docstring, corrupted docstring).")
 DESIGN_REF = '6.2'
@@ -337,6 +337,10 @@ def case_strategy(D, max_stmts):
         allowed = set(want_options(stmts, info, i, since_i).values())
         earlier = [info[j]['rep'] for j in range(i) if info[j]['valued']]
         cor = corrupt(D, wants, i, prev[-1] if prev else None, 'JUNK{}'.format(n), allowed, earlier)
+    silent = [i for i in range(n) if wants[i] is None and info[i]['out'] == '' and not info[i]['valued']]
+    if silent and D.chance(1, 8):
+        # a want under a statement that prints nothing and has no value: a lone quote character matches no output, none at all included
+        cor = {'at': D.choice(silent), 'kind': 'lone_quote_on_silent', 'text': D.choice(["'\n", '"\n'])}
     indent = D.choice(['', '    '])
     return {'mode': 'wants', 'stmts': stmts, 'wants': wants, 'want_kinds': want_kinds, 'corruption': cor,
             'indent': indent, 'acc': nontriv_acc}
